@@ -545,6 +545,15 @@ class Flow:
                     inl = self._inline(callee, args, dict(kws))
                     if inl is not None:
                         return inl
+            # a method of a record type (a NamedTuple class with methods) called on a record whose fields are known: the method's
+            # value with `self` bound to the record (func_resolver("<Class>.<method>") finds it)
+            if obj[0] == "record" and self.func_resolver is not None and self._depth < 2 and all(k != "**" for k, _ in kws) \
+                    and not any(nm == f.attr for nm, _ in obj[2]):
+                callee = self.func_resolver(f"{obj[1]}.{f.attr}")
+                if callee is not None and callee is not self.func and not callee.decorator_list:
+                    inl = self._inline(callee, (obj,) + args, dict(kws), bare=True)
+                    if inl is not None:
+                        return inl
             return ("meth", obj, f.attr, args, kws)
         # dispatch table: `table = {"k": self._m1, ...}; fn = table.get(key) / table[key]; fn(args)` is the if/elif chain
         # `key == "k" -> self._m1(args)` written as data
@@ -650,9 +659,16 @@ class Flow:
             return None
         params = [p.arg for p in callee.args.args]
         decs = {ast.unparse(d) for d in callee.decorator_list}
-        if callee.args.vararg or callee.args.kwarg or callee.args.kwonlyargs or decs - {"staticmethod", "classmethod"}:
+        if callee.args.kwarg or callee.args.kwonlyargs or decs - {"staticmethod", "classmethod"}:
             return None
         preset = {}
+        if callee.args.vararg:
+            # def h(a, *rest): the surplus positional arguments are the tuple `rest` (no starred argument at the call)
+            npos = len(params) - (0 if ("staticmethod" in decs or bare) else 1)
+            if any(a_[0] == "star" for a_ in args) or len(args) < npos or kws or callee.args.defaults:
+                return None
+            preset[callee.args.vararg.arg] = ("tuple", tuple(args[npos:]))
+            args = tuple(args[:npos])
         if "staticmethod" not in decs and not bare:
             if not params:
                 return None
@@ -1513,6 +1529,13 @@ def _const_tree(v, depth=0) -> bool:
     return v[0] == "const"
 
 
+def _value_tree(v, depth=0) -> bool:
+    """a conditional value whose every leaf is visibly None or visibly not None (a constant, a closure, text, a display, a record)"""
+    if v[0] in ("phi", "ifexp") and len(v) == 4 and depth < 64:
+        return _value_tree(v[2], depth + 1) and _value_tree(v[3], depth + 1)
+    return v[0] in ("const", "lambda", "fstr", "list", "tuple", "dict", "set", "record")
+
+
 def _map_leaves(v, f):
     if v[0] in ("phi", "ifexp") and len(v) == 4:
         return (v[0], v[1], _map_leaves(v[2], f), _map_leaves(v[3], f))
@@ -1589,6 +1612,9 @@ def _simp_selection(v):
     if k == "cmp" and len(v[1]) == 1 and v[1][0] in ("Is", "IsNot", "Eq", "NotEq") and len(v[2]) == 2:
         a, b = v[2]
         tree, other = (a, b) if a[0] in ("phi", "ifexp") else (b, a)
+        if tree[0] in ("phi", "ifexp") and other == ("const", None) and v[1][0] in ("Is", "IsNot") and not _const_tree(tree) and _value_tree(tree):
+            # (a selected closure / text / display is not None; only the literal None is)
+            return _bool_of_tree(_map_leaves(tree, lambda leaf: ("const", (leaf == ("const", None)) == (v[1][0] == "Is"))))
         if tree[0] in ("phi", "ifexp") and other[0] == "const" and _const_tree(tree) \
                 and (v[1][0] in ("Eq", "NotEq") or other[1] is None or isinstance(other[1], bool)):
             def test(leaf):
@@ -1604,6 +1630,10 @@ def _simp_selection(v):
         _map_leaves(v[1], lambda leaf: leaves.append(leaf) or leaf)
         if any(l_[0] == "attr" for l_ in leaves) and all(l_[0] == "attr" or (l_[0] == "call" and l_[1] == ("global", "getattr")) for l_ in leaves):
             return _map_leaves(v[1], lambda f: ("meth", f[1], f[2], v[2], v[3]) if f[0] == "attr" else ("call", f, v[2], v[3]))
+        # a closure selected from a table and called: the conditional of the bodies with the parameters bound
+        if any(l_[0] == "lambda" for l_ in leaves) and not v[3] and not any(a_[0] == "star" for a_ in v[2]) \
+                and all((l_[0] == "lambda" and len(l_[1]) == len(v[2])) or l_ == ("const", None) or l_[0] == "raise" for l_ in leaves):
+            return _map_leaves(v[1], lambda f: simp(subst(f[2], dict(zip(f[1], v[2])))) if f[0] == "lambda" else f if f[0] == "raise" else ("call", f, v[2], v[3]))
     return None
 
 
@@ -1696,6 +1726,27 @@ def simp(v):
         fv = v[2][0]
         elt = simp(subst(fv[2], {fv[1][0]: bv})) if fv[0] == "lambda" and len(fv[1]) == 1 else ("call", fv, (bv,), ())
         return ("comp", "gen", elt, ((bv, v[2][1], ()),))
+    # a call with a starred display among its arguments passes the elements: f(*("a", "b")) == f("a", "b")
+    if k in ("call", "meth"):
+        ai = 2 if k == "call" else 3
+        if any(e[0] == "star" and e[1][0] in ("list", "tuple") and not any(x[0] == "star" for x in e[1][1]) for e in v[ai]):
+            args = tuple(x for e in v[ai] for x in (e[1][1] if e[0] == "star" and e[1][0] in ("list", "tuple") and not any(y[0] == "star" for y in e[1][1]) else (e,)))
+            return simp(v[:ai] + (args,) + v[ai + 1:])
+    # operator.attrgetter("a", "b")(x) is (x.a, x.b); attrgetter("a")(x) is x.a; itemgetter(i, j)(x) is (x[i], x[j])
+    if k == "call" and len(v[2]) == 1 and not v[3] and v[2][0][0] != "star":
+        g = v[1]
+        which, names = (g[1][1], g[2]) if g[0] == "call" and g[1] in (("global", "attrgetter"), ("global", "itemgetter")) and not g[3] else \
+            (g[2], g[3]) if g[0] == "meth" and g[1] == ("global", "operator") and g[2] in ("attrgetter", "itemgetter") and not g[4] else (None, ())
+        if which == "attrgetter" and names and all(n_[0] == "const" and isinstance(n_[1], str) and all(p_.isidentifier() for p_ in n_[1].split(".")) for n_ in names):
+            def dotted(x, path):
+                for p_ in path.split("."):
+                    x = ("attr", x, p_)
+                return x
+            got = tuple(dotted(v[2][0], n_[1]) for n_ in names)
+            return got[0] if len(got) == 1 else ("tuple", got)
+        if which == "itemgetter" and names and all(n_[0] == "const" for n_ in names):
+            got = tuple(simp(("sub", v[2][0], n_)) for n_ in names)
+            return got[0] if len(got) == 1 else ("tuple", got)
     # a display with a starred display inside is one display: [a, *[b, c], d] == [a, b, c, d]
     if k in ("list", "tuple", "set") and any(e[0] == "star" and e[1][0] in ("list", "tuple") for e in v[1]):
         elts = []
